@@ -30,11 +30,25 @@ bounds; ORG/PHASE/ALIGN/sections/macros inside the generated programs (corpus on
 MOMPASS / READ are outside the property.  Error outcomes (out-of-range branch) are predicted by the model but are
 not part of C01's statement: disagreement is SPEC-DRIFT.
 
-Known findings on the pinned tree (known_findings/C01.json): the label-padding livelock (fix proposed in
-proposed_fixes/C01-label-padding-livelock.diff) and the -Y oscillation (no small safe repair; documented).
+Known findings on the pinned tree (known_findings/C01.json, repairs in proposed_fixes/C01-*.diff):
+  - label-padding livelock (dc.l lab / dc.b 1 / lab: nop loops forever; every padded label with >= 2 passes),
+  - -Y oscillation (genuinely out-of-range short branch + option -Y never ends),
+  - ASSUME register values survive into the next pass (65CE02 B, Z8 RP0/RP1, 78K3 RSS): found by the forced extra
+    pass on the golden corpus (t_s8forth, t_65ce02, t_78k3).
 
-Mutations of the real code tried on a scratch copy (VERIF_REPO=...), all compile and pass the 201 ctest tests:
-see the table at the end of this file (MUTATIONS).
+Mutations of the real code tried on scratch copies (selftest/C01-*.diff, `./check C01 --selftest` re-runs them;
+"suite" = result of the repository's own 201 ctest tests on the mutant):
+  m1 SymbolAdder no longer sets Repass on a changed constant       suite 11 fail   caught: extra pass changes code
+                                                                                   file, trace 'repass'
+  m2 LabelModify does not move the label behind the padding        suite  2 fail   caught: PassLoop_Obs 'value'
+  m3 pass loop ends after pass 2                                   suite 13 fail   caught: trace 'loop', Obs 'value'
+  m4 forward references always Questionable (range errors of the   suite  1 fail   caught: Obs 'value' (truncated
+     last pass silently truncated)                                                 displacement emitted)
+  m5 Repass on a changed constant only in passes 1 and 2           suite  1 fail   caught: Obs 'value', trace 'repass'
+  m6 68000 IsDisp8 accepts +128                                    suite  0 fail   caught: Obs 'value' (bra +128 -> $80)
+  m7 68HC11 direct addressing chosen for address $100              suite  0 fail   caught: Obs 'value' (origin 250)
+  fix the three proposed repairs applied                                           check exits 0 without KNOWN-FINDING
+A run on the unchanged tree exits 0 with the KNOWN-FINDING lines listed above.
 """
 import json
 import os
@@ -78,13 +92,14 @@ def tlc_jobs(tier):
         jobs["Gen_" + c] = dict(module="PassLoop_Gen", cfg="PassLoop_Gen_%s.cfg" % c, tags=("OUT",), collect=True,
                                 mem="8g")
         jobs["Sim_" + c] = dict(module="PassLoop_Gen", cfg="PassLoop_Sim_%s.cfg" % c, tags=("OUT",), collect=True,
-                                simulate=(100 if tier == "quick" else 3000), depth=140)
+                                simulate=(60 if tier == "quick" else 3000), depth=140)
         if tier != "quick":
             jobs["MC_" + c] = dict(module="PassLoop_MC", cfg="PassLoop_MC_%s5.cfg" % c, mem="12g", workers=4)
     jobs["MC_err"] = dict(module="PassLoop_MC", cfg="PassLoop_MC_err.cfg")
     jobs["MC_pinned"] = dict(module="PassLoop_MC", cfg="PassLoop_MC_68k_pinned.cfg")
     jobs["MC_pinned_char"] = dict(module="PassLoop_MC", cfg="PassLoop_MC_68k_pinned_char.cfg")
     jobs["MC_Y"] = dict(module="PassLoop_MC", cfg="PassLoop_MC_Y.cfg")
+    jobs["MC_Y_fixed"] = dict(module="PassLoop_MC", cfg="PassLoop_MC_Y_fixed.cfg")
     return jobs
 
 
@@ -108,7 +123,7 @@ def run_tlc_jobs(tier):
 
 
 def model_checks(rep, tier, R):
-    names = ["MC_err"] + (["MC_" + c for c in CLASSES] if tier != "quick" else [])
+    names = ["MC_err", "MC_Y_fixed"] + (["MC_" + c for c in CLASSES] if tier != "quick" else [])
     for n in names:
         r = tlc.must(R[n], "PassLoop_MC " + n)
         if r.violation:
@@ -162,7 +177,7 @@ def generate(rep, cls, tier, r, R):
         small = [x for x in exhaustive if len(x["prog"]) <= 3]
         big = [x for x in exhaustive if len(x["prog"]) > 3]
         r.shuffle(big)
-        quota = {"68k": 1500, "abs": 500, "86": 800}[cls]
+        quota = {"68k": 1100, "abs": 350, "86": 550}[cls]
         exhaustive = small + big[:quota]
     else:
         if len(exhaustive) > 60000:
@@ -436,6 +451,8 @@ def trace_generated(rep, bld, cls_todo, tier):
 
 def compare_passes(rep, case, dia, trace):
     """per-pass Repass / label values of the real run vs the model's hist (diagnostic)"""
+    if case["patched"] and any(k.startswith("C01-label-padding") for k in rep.known_hit):
+        return      # the predictions are those of the repaired SymbolAdder; this tree still has the pinned one
     labels = {}
     passes = []
     cur = None
